@@ -91,6 +91,19 @@ func report(w *World, prop, tier string, seed int, t0 time.Time, gens []*Gen, tr
 			}
 			continue
 		}
+		if strings.HasSuffix(c.Key, ".outside") {
+			if _, ok := known[strings.TrimSuffix(c.Key, ".outside")]; ok {
+				// the known finding's clause must hold outside the recorded witness class
+				if c.Status != "discharged" {
+					viols = append(viols, violation{c.Key, "obligation fails outside the recorded known-finding class (" + c.Status + "): a different violation", worst(c.Key)})
+				} else {
+					nClaimed++
+					nDischarged++
+					claimedList = append(claimedList, c)
+				}
+				continue
+			}
+		}
 		unclaimed = append(unclaimed, c)
 	}
 	// claimed clauses that generated no instance (function/loop/clause disappeared)
